@@ -426,6 +426,11 @@ class ExprMixin:
         if not is_term(a) or not is_term(b):
             if isinstance(a, Static) and isinstance(b, Static):
                 return fin(st, z3.BoolVal(a.path == b.path))
+            if (isinstance(a, Static) and a.path.startswith('class:')) or \
+                    (isinstance(b, Static) and b.path.startswith('class:')):
+                # a class object compared with a value: equal only to the Cls value of the same class
+                a2, b2 = self.cls_value(a), self.cls_value(b)
+                return fin(st, a2 == b2)
             raise NotFormed('== on static values')
         ea, eb = is_('Empty', a), is_('Empty', b)
 
@@ -705,7 +710,10 @@ class ExprMixin:
                 k = fresh('k', T.I)
                 return [(s.add(ln(L) == ln(o), ln(o) >= 0,
                                z3.ForAll([k], z3.Implies(z3.And(0 <= k, k < ln(o)), at(L, k) == at(o, ln(o) - 1 - k)),
-                                         patterns=[at(L, k)])), L)]
+                                         patterns=[at(L, k)]),
+                               # the same fact, triggered from the source list (needed to map positions back)
+                               z3.ForAll([k], z3.Implies(z3.And(0 <= k, k < ln(o)), at(o, k) == at(L, ln(o) - 1 - k)),
+                                         patterns=[at(o, k)])), L)]
             return self.cases(st, [(is_('List', o), rev),
                                    (z3.Not(is_('List', o)), lambda s: self._not_modelled(s, '[::-1] on a non-list'))])
 
